@@ -70,6 +70,24 @@ def gen_cases(tier, rng):
                             return dict(op=op, vals=vals, mask=mask, window=2, n=1)
                         yield dict(keys=[list(base)], key_classes=[cls], repr=repr_, sort=rng.random() < 0.8, chunks=[rng.randint(1, L - 1)],
                                    history=[step(a, "none"), step(b, mk)])
+    # threshold scans: consecutive masked reductions through ONE boolean buffer refilled in place, each window cutting whole
+    # groups away (so that the observed-label filter is consulted every time)
+    for rep in range(24 if tier == "quick" else 300):
+        L = rng.randint(10, 24)
+        nlab = rng.randint(3, 5)
+        base = sorted(rng.randrange(nlab) for _ in range(L))
+        if rng.random() < 0.3:
+            base[rng.randrange(L)] = None
+        repr_ = rng.choice(["plain", "small", "arrowchunks"])
+        cls = rng.choice(["float", "str"]) if None in base else rng.choice(["int", "float", "str"])
+        hist = []
+        for _ in range(rng.randint(2, 4)):
+            lo = rng.randint(0, L - 2)
+            w = rng.randint(2, max(2, L // 2))
+            hist.append(dict(op=rng.choice(["sum", "min", "count", "last", "mean", "max", "first", "size"]),
+                             vals=[None if rng.random() < 0.15 else rng.choice([-3, 1, 2, 7]) for _ in range(L)],
+                             mask=("b", [lo <= i < lo + w for i in range(L)]), window=2, n=1))
+        yield dict(keys=[list(base)], key_classes=[cls], repr=repr_, sort=rng.random() < 0.8, chunks=[rng.randint(1, L - 1)], history=hist, reuse_buffers=True)
     n = 450 if tier == "quick" else 8000
     maxlen = 12 if tier == "quick" else 40
     for _ in range(n):
@@ -106,7 +124,8 @@ def gen_cases(tier, rng):
             elif mk == "p":
                 mask = ("p", [rng.randrange(-L, L) for _ in range(rng.randint(1, L))])
             history.append(dict(op=op, vals=vals, mask=mask, window=rng.randint(1, 3), n=rng.choice([-1, 0, 1, 2])))
-        yield dict(keys=[keys], key_classes=[cls], repr=repr_, sort=rng.random() < 0.8, chunks=[rng.randint(1, L - 1)], history=history)
+        yield dict(keys=[keys], key_classes=[cls], repr=repr_, sort=rng.random() < 0.8, chunks=[rng.randint(1, L - 1)], history=history,
+                   reuse_buffers=rng.random() < 0.4)
 
 
 def evaluate(case, drv):
@@ -122,8 +141,9 @@ def evaluate(case, drv):
     key_arr = encode_key_column(case["keys"][0], cls)
     typ = {"int": pa.int64(), "float": pa.float64(), "str": pa.string(), "datetime": pa.timestamp("ns")}[cls]
     hist = case["history"]
-    key = repr((case["keys"], cls, case["repr"], case["sort"], case["chunks"], [(h["op"], h["vals"], h["mask"], h["window"], h["n"]) for h in hist]))
-    res = dict(tags=[f"repr:{case['repr']}", f"kc:{cls}", f"len:{len(hist)}"] + [f"op:{h['op']}" for h in hist],
+    key = repr((case["keys"], cls, case["repr"], case["sort"], case["chunks"], [(h["op"], h["vals"], h["mask"], h["window"], h["n"]) for h in hist], case.get("reuse_buffers")))
+    res = dict(tags=[f"repr:{case['repr']}", f"kc:{cls}", f"len:{len(hist)}", "buffers:reused-in-place" if case.get("reuse_buffers") else "buffers:fresh"]
+               + [f"op:{h['op']}" for h in hist],
                size=len(hist), key=key,
                nontrivial=len(hist) >= 2 and any((h["op"][2:] if h["op"].startswith("T:") else h["op"]) in REPR_CHANGING or h["op"].startswith("T:") for h in hist),
                bucket=(case["repr"], cls))
@@ -142,15 +162,27 @@ def evaluate(case, drv):
         finally:
             core_mod.THRESHOLD_FOR_CHUNKED_FACTORIZE = old_thr
 
-    def call(gb, keys, h):
+    # a caller that keeps one preallocated mask / value buffer and refills it in place between the calls on ONE GroupBy object
+    # (threshold scans, streaming updates): the reused object sees the same array objects with new contents
+    buffers = {}
+
+    def call(gb, keys, h, shared=False):
         op = h["op"]
         transform = op.startswith("T:")
         base = op[2:] if transform else op
         values = encode_values(h["vals"], "f64")
+        if shared and case.get("reuse_buffers"):
+            vb = buffers.setdefault("v", np.zeros(L, dtype=np.float64))
+            np.copyto(vb, values)
+            values = vb
         m = h["mask"]
         mask = None
         if m is not None:
             mask = np.array(m[1], dtype=bool) if m[0] == "b" else (slice(m[1], m[2]) if m[0] == "s" else np.array(m[1], dtype=np.int64))
+            if m[0] == "b" and shared and case.get("reuse_buffers"):
+                mb = buffers.setdefault("m", np.zeros(L, dtype=bool))
+                np.copyto(mb, mask)
+                mask = mb
         times = np.array([1_600_000_000 + 2 * i for i in range(L)], dtype="int64").view("datetime64[s]") if base == "ema_timed" else None
         if base == "classlevel":
             core_mod.THRESHOLD_FOR_CHUNKED_FACTORIZE = 8 if case["repr"] in ("small", "mono") else 10 ** 9
@@ -187,7 +219,7 @@ def evaluate(case, drv):
                 out, exp = ("error", f"{type(e).__name__}: {str(e)[:150]}"), ("ok",)
         else:
             try:
-                out = call(gb, keys, h)
+                out = call(gb, keys, h, shared=True)
             except Exception as e:  # noqa
                 out = ("error", f"{type(e).__name__}: {str(e)[:150]}")
             try:
